@@ -217,6 +217,59 @@ def gen_occupancy(rng, algo, family, mode, target=None):
             "aim": "occ%d/%d.k%d" % (v, lanes, kind)}
 
 
+def gen_inflight(rng, algo, family, mode):
+    """submits on contexts that ARE in flight, in each stage a context can be in flight in:
+    body blocks of a FIRST/UPDATE (status PROCESSING), body blocks of a LAST (PROCESSING|LAST),
+    padding blocks (PROCESSING|COMPLETE: a short ENTIRE, or a short LAST) x every flags value
+    FIRST/UPDATE/LAST/ENTIRE and a bad one.  The specification rejects all of them
+    (ALREADY_PROCESSING) and nothing may change; accepting one would put a context into two
+    lanes.  Fewer jobs than lanes are in flight, so nothing retires before the probes."""
+    f = fam(algo, family)
+    B = block(algo)
+    lanes = max(f["lanes"], 1)
+    room = max(1, lanes - 1)
+    n = 1 + rng.below(min(room, 4))
+    sd = lambda: rng.next() & 0xffffffffffff
+    ops, stages = [], []
+    for c in range(n):
+        st = rng.below(3)
+        if st == 0:
+            ops.append("A%d,1,%d,%s,%x" % (c, (1 + rng.below(4)) * B + rng.below(B), place(rng), sd()))
+        elif st == 1:
+            if rng.below(2):
+                ops.append("A%d,3,%d,%s,%x" % (c, (1 + rng.below(3)) * B + rng.below(B), place(rng), sd()))
+            else:
+                ops.append("A%d,1,%d,%s,%x" % (c, rng.below(B), place(rng), sd()))      # handed straight back idle
+                ops.append("A%d,2,%d,%s,%x" % (c, 2 * B + rng.below(B), place(rng), sd()))
+        else:
+            if rng.below(2):
+                ops.append("A%d,3,%d,%s,%x" % (c, rng.below(B), place(rng), sd()))      # padding only
+            else:
+                ops.append("A%d,1,%d,%s,%x" % (c, rng.below(B // 2), place(rng), sd()))
+                ops.append("A%d,2,%d,%s,%x" % (c, rng.below(B // 2), place(rng), sd()))
+        stages.append(st)
+    probes = []
+    for c in range(n):
+        for _ in range(1 + rng.below(3)):
+            fl = rng.choice([0, 1, 2, 3, 1, 3, rng.choice(BAD_FLAGS)])
+            probes.append("S%d,%x,%d,%s,%x" % (c, fl, rng.choice([0, 1, B, seg_len(rng, B)]), place(rng), sd()))
+    # shuffle the probes a little, interleave a flush now and then
+    for i in range(len(probes) - 1, 0, -1):
+        j = rng.below(i + 1)
+        probes[i], probes[j] = probes[j], probes[i]
+    for p in probes:
+        ops.append(p)
+        if rng.below(5) == 0:
+            ops.append("F")
+    # the history goes on: more messages on the same and on other contexts
+    tail = []
+    for c in range(n + 1 + rng.below(3)):
+        if rng.below(2):
+            tail += message(rng, B, c)
+    ops += ["D"] + tail + ["D"]
+    return {"algo": algo, "fam": family, "mode": mode, "nctx": n + 3, "tmo": 20, "ops": ops, "aim": "inflight-resubmit"}
+
+
 def gen_reject(rng, algo, family, mode):
     """the malformed stream: a valid history with rejected submits injected at random points:
     bad flags (any value with a bit outside FIRST|LAST), a submit on a context that is in
@@ -231,7 +284,18 @@ def gen_reject(rng, algo, family, mode):
     sd = lambda: rng.next() & 0xffffffffffff
     for _ in range(n_inj):
         pos = rng.below(len(ops))     # before the final D
-        kind = rng.below(10)
+        kind = rng.below(12)
+        if kind >= 10:
+            # a submit on a context that was JUST queued, for each stage it can be in flight in:
+            # body blocks (status PROCESSING), body blocks of a LAST segment (PROCESSING|LAST),
+            # padding blocks (PROCESSING|COMPLETE: a short LAST/ENTIRE) x every flags value
+            cand = [i for i, o in enumerate(ops) if re.match(r"A\d+,[0-3],", o)]
+            if cand:
+                i = rng.choice(cand)
+                c0 = int(re.match(r"A(\d+),", ops[i]).group(1))
+                ops[i + 1:i + 1] = ["S%d,%x,%d,%s,%x" % (c0, rng.choice([0, 1, 2, 3, 1, 3]), seg_len(rng, B), place(rng), sd())]
+                continue
+            kind = 5
         # a context the preceding op just touched is the likeliest to be in flight / idle
         recent = [int(re.match(r"[AS](\d+),", o).group(1)) for o in ops[max(0, pos - 6):pos] if re.match(r"[AS](\d+),", o)]
         tgt = rng.choice(recent) if recent and rng.below(4) else rng.below(nctx)
@@ -256,6 +320,28 @@ def gen_reject(rng, algo, family, mode):
     return dict(base, nctx=nctx, ops=ops, aim="reject+" + base["aim"])
 
 
+_wrapper_ok = None
+
+
+def wrapper_pairs():
+    """the pairs the real dispatcher binds under the virtual CPUID preset named after the
+    family (probed on the current build).  A family the dispatcher of this build never selects
+    (sm3/avx512 in the Makefile.unx build: HAVE_AS_KNOWS_AVX512 is not defined there, the
+    3-level dispatcher is assembled) is driven through its entry points only; which families
+    a CPUID assignment may bind is C12's subject, not this vertical's."""
+    global _wrapper_ok
+    if _wrapper_ok is None:
+        ps = pairs()
+        cases = [{"algo": a, "fam": f, "mode": "W", "nctx": 1, "tmo": 10, "ops": ["A0,3,3,e,1", "F", "D"]} for a, f in ps]
+        nexe = native_driver()
+        out, _ = vlib.run_driver(nexe, "\n".join(case_line("p%d" % i, c) for i, c in enumerate(cases)), timeout=120)
+        _wrapper_ok = {}
+        for i, (a, f) in enumerate(ps):
+            end = parse_native(out["p%d" % i])["end"]
+            _wrapper_ok[(a, f)] = end.get("wbound", "?")
+    return _wrapper_ok
+
+
 def gen_cases(rng, n_per_pair, profile, wrapper_share=35, only=None):
     """n_per_pair histories for every (algo, family); profile = {"mix": w, "occ": w, "reject": w}"""
     out = []
@@ -267,9 +353,13 @@ def gen_cases(rng, n_per_pair, profile, wrapper_share=35, only=None):
         occ_cycle = 0
         for i in range(n_per_pair):
             mode = "W" if rng.below(100) < wrapper_share else "D"
+            if mode == "W" and wrapper_pairs().get((algo, family)) != "ok":
+                mode = "D"
             k = rng.choice(kinds)
             if k == "mix":
                 c = gen_mix(rng, algo, family, mode)
+            elif k == "inflight":
+                c = gen_inflight(rng, algo, family, mode)
             elif k == "occ":
                 # every occupancy value 0..lanes is visited in turn
                 c = gen_occupancy(rng, algo, family, mode, target=occ_cycle % (f["lanes"] + 1))
@@ -286,16 +376,16 @@ def case_line(cid, c):
 
 # ----------------------------------------------------------------------------- running and parsing
 
-def run_cases(cases, what="01", prefix="c"):
+def run_cases(cases, what="01", prefix="c", shards=None):
     """run the native driver over the cases and the model driver over the observed traces;
     -> (native lines, model lines) keyed by case id"""
     nexe, mexe = native_driver(), model_driver()
     ids = ["%s%d" % (prefix, k) for k in range(len(cases))]
     ntxt = "\n".join(case_line(i, c) for i, c in zip(ids, cases))
-    nout, nerr = vlib.run_driver(nexe, ntxt, timeout=1500)
+    nout, nerr = vlib.run_driver(nexe, ntxt, timeout=3000, shards=shards)
     mtxt = "\n".join("T %s %s %d %s %d %s" % (i, c["algo"], fam(c["algo"], c["fam"])["lanes"] + 1, what, c["nctx"], nout[i])
                      for i, c in zip(ids, cases))
-    mout, merr = vlib.run_driver(mexe, mtxt, timeout=1500)
+    mout, merr = vlib.run_driver(mexe, mtxt, timeout=3000, shards=shards)
     return ids, nout, mout
 
 
@@ -372,13 +462,18 @@ def concrete_ops(nat):
 # C01 & C06 & C11 & C15; the diagnosis says which conjunct.
 def attribute(reason, case, nat, k):
     r = reason.split(":")[0]
-    if r in ("rej_ret", "rej_err", "rej_rc", "rej_status", "rc", "own_err", "frame"):
+    if r == "rej_ret":
+        # a submit the specification rejects was not handed straight back: the rejection did
+        # not happen (C11); when the context was in flight the job is now held twice (C06)
+        return "C06+C11"
+    if r in ("rej_err", "rej_rc", "rej_status", "rc", "own_err", "frame"):
         return "C11"
     if r == "total":
         return "C15"
     if r == "digest":
+        # a wrong digest is a C01 failure whatever the length; past 2^29 it is also C15's
         big = any(o[0] in "JBV" for o in case["ops"])
-        return "C15" if big else "C01"
+        return "C01+C15" if big else "C01"
     if r in ("status", "notheld", "overfull", "nullheld", "stranded", "nodrain", "userdata", "userbuf", "foreign"):
         return "C06"
     return "ALL"           # fault, timeout, truncated output: no property holds on such a run
@@ -415,8 +510,11 @@ def examine(case, nline, mline):
                 add("frame", k, "rejected submit changed memory: manager=%s other contexts=%s own field mask=%s "
                     "(1 digest 2 status 4 error 8 total 16 incoming 32 partial buffer 64 partial length 128 user_data 256 job)" % (mg, others, own))
     wb = None
+    if nat["end"].get("wbound", "ok") != "ok":
+        wb = {"call": 0, "what": "the virtual CPUID preset for family %s made the dispatcher bind %s: the isal_ wrappers of this family were not exercised"
+              % (case["fam"], nat["end"]["wbound"])}
     # white-box: manager occupancy against the acceptor's count of contexts in flight
-    if not sync and not fails:
+    if not sync and not fails and wb is None:
         for k, r in enumerate(nat["calls"]):
             if "u" in r["kv"] and k < len(mod["nf"]) and mod["nf"][k].isdigit() and r["kv"]["u"] != mod["nf"][k]:
                 wb = {"call": k, "what": "num_lanes_inuse=%s but %s contexts are in flight" % (r["kv"]["u"], mod["nf"][k])}
@@ -583,12 +681,14 @@ def nontrivial(nat):
     return data and done
 
 
-def run_engine(rep, pid, cases, what="01", dist=None, label="gen"):
+def run_engine(rep, pid, cases, what="01", dist=None, label="gen", shards=None, keep=None):
     """run cases; returns (failures, first white-box break).  failures = [(case, fail, nat, nline, mline)]"""
     if not cases:
         return [], None
-    ids, nout, mout = run_cases(cases, what)
+    ids, nout, mout = run_cases(cases, what, shards=shards)
     failures, wb_first = [], None
+    if keep is not None:
+        keep.update({"ids": ids, "native": nout, "model": mout})
     for i, c in zip(ids, cases):
         fails, wb, nat, mod = examine(c, nout[i], mout[i])
         rep.case(hashlib.sha256(case_line("x", c).encode()).hexdigest(), nontrivial(nat))
@@ -611,7 +711,7 @@ def report(rep, pid, failures, max_min=4):
     seen = {}
     for c, f, nat, nline, mline in failures:
         by_prop[f["prop"]] = by_prop.get(f["prop"], 0) + 1
-        if f["prop"] not in (pid, "ALL"):
+        if pid not in f["prop"] and f["prop"] != "ALL":
             continue
         sig = signature(c, f, nat)
         key = (sig["kind"], sig["family_class"], c["algo"] if sig["kind"] not in ("stale_rc", "sticky_error") else "")
@@ -626,11 +726,19 @@ def report(rep, pid, failures, max_min=4):
                 ids, no, mo = run_cases([cc], "0", prefix="m")
                 fl, _, _, _ = examine(cc, no[ids[0]], mo[ids[0]])
                 return any(x["prop"] == f["prop"] and x["reason"].split(":")[0] == kind0 for x in fl)
+            if any(o[0] in "BV" for o in conc["ops"]):
+                pred = None          # long streams are not minimised (each run costs seconds)
             try:
-                if pred(conc):
+                if pred is not None and pred(conc):
                     conc = minimise(conc, pred)
             except Exception:
                 pass
+        if any(o[0] in "BV" for o in conc["ops"]):
+            detail = f.get("detail", "")
+            rep.violation("%s/%s: %s %s" % (c["algo"], c["fam"], explain(f["reason"]), detail),
+                          {"algo": c["algo"], "fam": c["fam"], "mode": c["mode"], "nctx": c["nctx"], "ops": c["ops"],
+                           "failure": f["reason"], "failing_call": f["call"], "observed": nline[:4000], "detail": detail}, sig)
+            continue
         ids, no, mo = run_cases([conc], "01", prefix="r")
         fl, wb, nat2, mod2 = examine(conc, no[ids[0]], mo[ids[0]])
         same = [x for x in fl if x["prop"] == f["prop"] and x["reason"].split(":")[0] == kind0]
@@ -698,6 +806,8 @@ def corpus_cases(only_pairs=None):
             B = block(a)
             ops = [o.replace("{B}", str(B)).replace("{B-1}", str(B - 1)).replace("{B+1}", str(B + 1)).replace("{2B}", str(2 * B)) for o in e["ops"]]
             for mode in e.get("modes", ["D", "W"]):
+                if mode == "W" and wrapper_pairs().get((a, f)) != "ok":
+                    continue
                 out.append({"algo": a, "fam": f, "mode": mode, "nctx": e["nctx"], "tmo": 20, "ops": ops, "aim": "corpus:" + e["name"]})
     return out
 
@@ -714,3 +824,106 @@ ASSUMPTIONS = [
     "single submits of 2^31 bytes and more are exercised only by C15's thorough tier",
     "the L0 acceptor's bound K is lanes+1 (\"never holds more contexts than it has lanes\"), lanes decoded from the family's manager init function",
 ]
+
+
+# ----------------------------------------------------------------------------- C15: totals across 2^29 / 2^32
+
+THRESHOLDS = {"2^29": 1 << 29, "2^32": 1 << 32, "2^32+2^29": (1 << 32) + (1 << 29)}
+
+
+def gen_inject(rng, algo, family, mode, T):
+    """state-injection correspondence: every context of the case is put IDLE in a mid-stream
+    state with an arbitrary chaining value, total_length = pre + plen where pre = T - k*B and
+    plen = total mod B bytes waiting in the partial block buffer, then continued with a few
+    UPDATE segments that cross T and a LAST.  One chain and one pre per case (so that the L0
+    acceptor runs over Model.HashObs.shift_algo); d = T - total and the residue vary per context."""
+    f = fam(algo, family)
+    B = block(algo)
+    lanes = f["lanes"]
+    nctx = 1 + rng.below(max(1, lanes) + 2)
+    k = rng.choice([0, 1, 1, 2, 3, 5])
+    pre = T - k * B
+    cseed = rng.next() & 0xffffffffffff
+    ops, streams = [], []
+    for c in range(nctx):
+        plen = rng.choice([0, 1, B - 1, B - 8, B - 9, B - 16, B - 17, B // 2, rng.below(B)]) % B
+        ops.append("J%d,%x,%d,%x" % (c, pre + plen, plen, cseed))
+        segs = [(0, seg_len(rng, B)) for _ in range(rng.below(4))]
+        # make sure the running total passes T (k blocks away) in most cases
+        if rng.below(4):
+            segs.insert(rng.below(len(segs) + 1), (0, k * B + rng.choice([0, 1, B - 1, B, rng.below(2 * B)])))
+        segs.append((2, 0 if rng.below(3) == 0 else seg_len(rng, B)))
+        streams.append(["A%d,%x,%d,%s,%x" % (c, fl, ln, place(rng), rng.next() & 0xffffffffffff) for fl, ln in segs])
+    ops += sprinkle_flush(rng, interleave(rng, streams), [0, 5, 20][rng.below(3)])
+    return {"algo": algo, "fam": family, "mode": mode, "nctx": nctx, "tmo": 30, "ops": ops + ["D"],
+            "aim": "inject@%s-%dB" % ([n for n, v in THRESHOLDS.items() if v == T][0], k), "T": T}
+
+
+def long_params(algo, T):
+    """(len, count) of the shared-buffer submits whose sum is a few blocks short of T"""
+    B = block(algo)
+    count = T >> 26                     # 64 MiB pieces: 8, 64, 72
+    k = 72 * 64 // B if count == 72 else (2 if B == 64 else 1) * 8
+    # k*B must be divisible by count: T=2^29: 8 | k*B; 2^32: 64 | k*B; 2^32+2^29: 72 | k*B
+    while (k * B) % count:
+        k += 1
+    return (T - k * B) // count, count, k
+
+
+def gen_long(rng, algo, family, mode, T, seed=0xB16):
+    """real long streams with a model checkpoint: all lanes busy with the same 64 MiB buffer
+    submitted count times (total = T - k*B, not a multiple of the block size per submit), the
+    context fields are read there (the B record) and the model / acceptor continue from that
+    observed state over the segments that cross T, the padding and the final digest"""
+    f = fam(algo, family)
+    B = block(algo)
+    nc = max(1, f["lanes"])
+    ln, count, k = long_params(algo, T)
+    ops = ["B%d,%d,%d,%x" % (nc, ln, count, seed)]
+    streams = []
+    for c in range(nc):
+        segs = [(0, rng.choice([1, B - 1, B, k * B - 1, k * B, k * B + 1, rng.below(k * B + 2 * B)]))]
+        if rng.below(2):
+            segs.append((0, seg_len(rng, B)))
+        segs.append((2, rng.choice([0, 1, seg_len(rng, B), 2 * k * B + rng.below(B)])))
+        streams.append(["A%d,%x,%d,%s,%x" % (c, fl, l, place(rng), rng.next() & 0xffffffffffff) for fl, l in segs])
+    ops += interleave(rng, streams)
+    return {"algo": algo, "fam": family, "mode": mode, "nctx": nc, "tmo": 1500, "ops": ops + ["D"],
+            "aim": "long@%s" % [n for n, v in THRESHOLDS.items() if v == T][0], "T": T, "long": (ln, count, seed)}
+
+
+def gen_virtual(algo, family, mode="D"):
+    """one submit of 2^32 - B bytes (the largest whole-block length a uint32 can carry) read
+    through a 4 GiB virtual mapping of one physical page"""
+    B = block(algo)
+    return {"algo": algo, "fam": family, "mode": mode, "nctx": 1, "tmo": 1500, "ops": ["V0,%d,3" % ((1 << 32) - B)],
+            "aim": "single 2^32-B submit"}
+
+
+def big_buffer_bytes(seed, n):
+    """first n bytes of the native driver's shared 64 MiB buffer"""
+    mb = bytearray(vlib.SplitMix64(seed).bytes(1 << 20))
+    out = bytearray()
+    i = 0
+    while len(out) < n:
+        m = bytearray(mb)
+        m[0] ^= i & 0xff
+        out += m
+        i += 1
+    return bytes(out[:n])
+
+
+def digest_bytes_of_words(algo, words_str):
+    """library digest words (as printed) -> the standard's digest bytes"""
+    ws = [int(w, 16) for w in words_str.split(".")]
+    wb = cfg()["algos"][algo]["wordbits"] // 8
+    order = "little" if algo in ("md5", "sm3") else "big"
+    return b"".join(w.to_bytes(wb, order) for w in ws)
+
+
+def hashlib_new(algo):
+    import hashlib as H
+    try:
+        return H.new(algo)
+    except Exception:
+        return None
